@@ -29,6 +29,11 @@ CHECKS = {
   text="Generated-input search over whole projects: a structured model (controllers over several packages/files, verbs, route templates with slash noise and URL parameters, hidden/deprecated flags, decoy methods) is rendered to a Go module and analysed by the real gleece pipeline in-process; the set of (verb, path) operations of both the 3.0 and 3.1 documents must equal the non-hidden annotated routes predicted by the model, with operationId, tag and deprecation flag. Both inclusions (invented / dropped) are checked. Sampling of an unbounded project space.",
   note="Trusts: rapid; the renderer and the reference predictions in internal/projgen (path normalisation is the statement's: concatenate and collapse slashes); generator preconditions listed in the evidence assumptions. In-process execution uses the CLI's own entry points.",
   ref="6/C01"),
+ "C04": dict(
+  technique="model-based property testing with rapid: generated security/inheritance/scheme-catalogue models vs both emitted documents (static half) and vs the checks the generated routers present to the authorization callback (dynamic half, router lab)",
+  text="Generated-input search over projects combining method/controller/default security (absent, single, multiple, repeated scheme, with/without scopes), drawn scheme catalogues, the enforce flag and undeclared schemes. The model predicts each operation's effective alternatives; both documents must list exactly those (schemes, scopes, order), declare every scheme as configured, fail when a visible route names an undeclared scheme, and enforce=true must accept iff no route is open. The router lab additionally compares what each generated router actually consults with the document. Sampling.",
+  note="Trusts: rapid, the effective-security rule transcribed from the statement (method, else controller, else default), JSON comparison after normalisation. Hidden routes are not required to make the spec fail on an undeclared scheme (nothing in the document names it).",
+  ref="6/C04"),
 }
 
 NOT_APPLICABLE = []
